@@ -66,6 +66,9 @@ func checkC07(c *Ctx) {
 	c.Rule("C07-R17", "nothing of a skipped conditional part is copied, %% included: every output in the interpreter's loop lies where the skipping mode is known to be emit")
 	c.Expect("C07-R17", 1)
 	checkOutputBehindSkipGate(c, p, "C07-R17")
+	c.Rule("C07-R18", "every operand pushed is there to be popped, however deep the expression: each return of stack.Push answers an append to the stack (a bounded stack that ignores a push loses operands of well-formed strings)")
+	c.Expect("C07-R18", 1)
+	checkPushAlwaysAppends(c, p, "C07-R18")
 	c.Rule("C07-R15", "%d writes the decimal form of the number it pops: strconv's form handed to the output, or a helper decided by constant evaluation for every number from -1000 to 70000 (= C15-R10)")
 	c.Expect("C07-R15", 1)
 	c.asRule("C15-R10", "C07-R15", func() { checkDecimalOutput(c, p, "C15-R10") })
